@@ -12,7 +12,7 @@ ORACLE_RULE = ("C05: indicator kind (rotating over " + ", ".join(od.KINDS[ID]) +
 ASSUMPTIONS = ["helper indicator series may be rounded to 4 decimals (they do not inherit round_value); the budget allows max(0.5e-4, 0.5*10^-round_value) per helper series",
                "float noise allowance 1e-10 relative to the input scale on top of the rounding budget",
                "points where the textbook formula is 0/0 (flat high-low window, zero traded volume, zero smoothed |momentum|, zero ATR) are not constrained here (C09 covers them)"]
-PARTIAL = 'exact ordered field; per-call definitions for all eleven indicators, whole-series for HLA and TR; composite series: C05_FULL'
+PARTIAL = "exact ordered field; per-call definitions for all eleven indicators incl. 'Supertrend flips exactly when the close breaks the previous active band' (true after fix 0d81c09), whole-series for HLA and TR; composite series: C05_FULL"
 _case = od.make_case(ID)
 
 
